@@ -346,3 +346,84 @@ Example c18s_lock_free_steps_may_fall_inside_an_eval :
     [(1, true); (1, true); (0, false); (0, false); (0, false); (1, true); (0, false); (0, false); (0, false)] /\
   aof g = [set_a1; set_b1].
 Proof. vm_compute. repeat split. Qed.
+
+(* ======================================================================================== *)
+(* The interpreter pool and the per-interpreter eval mode (Model/LuaPool.v). tile38.call chooses its
+   path by the mode registered for the running interpreter; WHEREEVAL filters and SCRIPT LOAD take
+   interpreters from the same pool and must find none. Which pool user registers a mode and whether it
+   removes it on every way out is read from Gen/LuaPool.v (regenerated from cmdEvalUnified,
+   cmdScriptLoad, parseSearchScanBaseTokens and every other function of the package on every run). *)
+From T38 Require Import Gen.LuaPool Model.LuaPool Proofs.LuaPoolProofs.
+
+(* for EVERY history of Get / Store / tile38.call / exit / Prune operations of any number of concurrent
+   requests - two interpreters out at once and returned in either order, exits before the Store, pool
+   growth - no idle interpreter carries an eval mode *)
+Theorem c18p_idle_interpreters_have_no_mode :
+  forall (n : nat) (ops : list op) (x : nat),
+  In x (saved (src_run (pinit n) ops)) -> reg_get (reg (src_run (pinit n) ops)) x = None.
+Proof. exact source_idle_interpreters_have_no_mode. Qed.
+Print Assumptions c18p_idle_interpreters_have_no_mode.
+
+(* ... so a tile38.call made from an interpreter whose user has no Store statement (a WHEREEVAL filter,
+   SCRIPT LOAD) or has not reached it finds no mode and is refused by luaTile38Call, and a script past
+   its Store is routed by its OWN command word, never by one an earlier request left behind. (This is
+   what Model/Script.v assumes when it looks the variant up under the request's own command word.) *)
+Theorem c18p_calls_are_routed_by_own_mode :
+  forall (n : nat) (ops : list op) (c : lcall),
+  In c (calls (src_run (pinit n) ops)) ->
+  (fst (user_flags (c_fn c)) = false -> route (c_found c) = None) /\
+  (c_stored c = true -> c_found c = Some (c_mode c)) /\
+  (c_stored c = false -> route (c_found c) = None).
+Proof. exact source_calls_are_routed_by_own_mode. Qed.
+Print Assumptions c18p_calls_are_routed_by_own_mode.
+
+(* the same for any registry discipline in which whoever registers also removes *)
+Theorem c18p_pool_discipline_suffices :
+  forall (fl : string -> bool * bool), (forall fn, fst (fl fn) = true -> snd (fl fn) = true) ->
+  forall (n : nat) (ops : list op),
+  (forall x, In x (saved (prun fl (pinit n) ops)) -> reg_get (reg (prun fl (pinit n) ops)) x = None) /\
+  (forall c, In c (calls (prun fl (pinit n) ops)) ->
+     if c_stored c then c_found c = Some (c_mode c) else c_found c = None).
+Proof.
+  exact (fun fl d n ops => conj (idle_interpreters_have_no_mode fl d n ops) (calls_find_own_mode_or_none fl d n ops)).
+Qed.
+Print Assumptions c18p_pool_discipline_suffices.
+
+(* only cmdEvalUnified registers a mode; the WHEREEVAL parser and SCRIPT LOAD are users of the pool and
+   do not; an interpreter without a mode is refused *)
+Theorem c18p_only_eval_registers_a_mode :
+  evalcmd_store_fns = ["Server.cmdEvalUnified"] /\
+  forallb (fun pu => implb (fst (fst (snd pu))) (String.eqb (fst pu) "Server.cmdEvalUnified")) pool_users = true /\
+  forallb (fun fn => negb (fst (user_flags fn))) ["Server.parseSearchScanBaseTokens"; "Server.cmdScriptLoad"] = true /\
+  existsb (fun pu => String.eqb (fst pu) "Server.parseSearchScanBaseTokens") pool_users = true /\
+  route None = None.
+Proof. exact (conj (proj1 only_eval_registers) (conj (proj1 (proj2 only_eval_registers)) (conj (proj1 (proj2 (proj2 only_eval_registers))) (conj (proj2 (proj2 (proj2 only_eval_registers))) no_mode_is_refused)))). Qed.
+Print Assumptions c18p_only_eval_registers_a_mode.
+
+(* the history that needs the discipline: an EVAL, a SCAN with two WHEREEVAL filters (closed in the order
+   they were taken: the two top interpreters swap), another EVAL, then an EVALRO whose script runs a SCAN
+   with a WHEREEVAL filter that calls tile38.call *)
+Definition evalfn := "Server.cmdEvalUnified".
+Definition filterfn := "Server.parseSearchScanBaseTokens".
+Definition swap_history : list op :=
+  [OGet 0 evalfn "eval"; OStore 0; OCall 0; OExit 0;
+   OGet 1 filterfn "scan"; OGet 2 filterfn "scan"; OExit 1; OExit 2;
+   OGet 3 evalfn "eval"; OStore 3; OExit 3;
+   OGet 4 evalfn "evalro"; OStore 4; OCall 4; OGet 5 filterfn "scan"; OCall 5].
+
+Example c18p_filter_call_refused_after_swap :
+  map (fun c => (c_user c, c_found c)) (calls (src_run (pinit 5) swap_history)) =
+    [(0, Some "eval"); (4, Some "evalro"); (5, None)] /\
+  saved (src_run (pinit 5) (swap_history ++ [OExit 5; OExit 4])) = [0; 1; 2; 4; 3].
+Proof. vm_compute. split; reflexivity. Qed.
+
+(* what the hypothesis is for: if cmdEvalUnified registered its mode without removing it, the filter
+   of this very history would land on the interpreter the second EVAL stamped and write through the
+   read-write path - inside an EVALRO *)
+Definition flags_without_delete (fn : string) : bool * bool :=
+  if String.eqb fn evalfn then (true, false) else (false, false).
+Example c18p_without_the_delete_the_filter_writes :
+  map (fun c => (c_user c, c_found c)) (calls (prun flags_without_delete (pinit 5) swap_history)) =
+    [(0, Some "eval"); (4, Some "evalro"); (5, Some "eval")] /\
+  route (Some "eval") = Some script_rw.
+Proof. vm_compute. split; reflexivity. Qed.
